@@ -50,6 +50,33 @@ func main() {
 		fmt.Println("WITNESS: the nested LICENSE replaced the top-level one")
 		bad++
 	}
+	// 3. a sub-directory that carries the same name as the source directory is descended into: its plugin
+	// executable is counted as a second candidate (install refused), or - when the top-level candidate is
+	// not executable - chosen as THE plugin: its metadata decides, the top-level file is what gets installed
+	script99 := "#!/bin/sh\necho '{\"name\":\"foo\",\"description\":\"d\",\"version\":\"99.0.0\",\"url\":\"u\",\"supportedContractVersions\":[\"1.0\"],\"capabilities\":[\"SIGNATURE_GENERATOR.RAW\"]}'\n"
+	root3 := filepath.Join(base, "r3")
+	src3 := filepath.Join(base, "pkg")
+	os.MkdirAll(filepath.Join(src3, "pkg"), 0755)
+	os.WriteFile(filepath.Join(src3, "notation-foo"), []byte(script), 0755)
+	os.WriteFile(filepath.Join(src3, "pkg", "notation-foo"), []byte(script99), 0755)
+	_, _, err = plugin.NewCLIManager(dir.NewSysFS(root3)).Install(ctx, plugin.CLIInstallOptions{PluginPath: src3})
+	if err != nil {
+		fmt.Println("WITNESS: install from a directory with a same-named sub-directory is refused:", err)
+		bad++
+	}
+	root4 := filepath.Join(base, "r4")
+	src4 := filepath.Join(base, "pkg4")
+	os.MkdirAll(filepath.Join(src4, "pkg4"), 0755)
+	os.WriteFile(filepath.Join(src4, "notation-foo"), []byte(script), 0644)
+	os.WriteFile(filepath.Join(src4, "pkg4", "notation-foo"), []byte(script99), 0755)
+	_, md, err := plugin.NewCLIManager(dir.NewSysFS(root4)).Install(ctx, plugin.CLIInstallOptions{PluginPath: src4})
+	if err == nil && md != nil && md.Version == "99.0.0" {
+		fmt.Println("WITNESS: the executable of the same-named sub-directory was taken as the plugin: Install reports version", md.Version)
+		if b, _ := os.ReadFile(filepath.Join(root4, "foo", "notation-foo")); string(b) == script {
+			fmt.Println("WITNESS: ... while the installed file is the top-level one (version 1.0.0)")
+		}
+		bad++
+	}
 	if bad > 0 {
 		os.Exit(1)
 	}
